@@ -89,6 +89,10 @@ Step(s, o) == [step |-> s, outcome |-> o]
 Issue(cs) == trace' = trace \o cs /\ res' = RFold(res, cs)
 
 Mismatch(expected, pack) == (expected = "Success") # (pack = "ok")
+\* pack = "nopack": a locally packaged buildpack (BuildpackReference::CurrentCrate / WorkspaceBuildpack)
+\* cannot be built, so build_internal panics before pack is invoked - it already owns the Docker
+\* resource names and the temporary directories at that point
+PackCmds(pack) == IF pack = "nopack" THEN <<>> ELSE <<Cmd("pack-build", "img")>>
 
 \* TestRunner::build: temp dir for packaged buildpacks (+ private app copy when a preprocessor
 \* is configured), pack build, expectation check.  A mismatch panics inside build_internal,
@@ -97,9 +101,9 @@ StartBuild(expected, pack, preproc) ==
   /\ stack = <<>> /\ script = <<>> /\ ~done
   /\ script' = <<Step("build", [expected |-> expected, pack |-> pack, preproc |-> preproc])>>
   /\ LET t == IF preproc THEN 2 ELSE 1 IN
-     /\ Issue(<<Cmd("temp", t), Cmd("pack-build", "img")>>)
+     /\ Issue(<<Cmd("temp", t)>> \o PackCmds(pack))
      /\ stack' = <<[k |-> "build", ctx |-> TRUE, temps |-> t, c |-> "-"]>>
-  /\ unwinding' = Mismatch(expected, pack)
+  /\ unwinding' = (pack = "nopack" \/ Mismatch(expected, pack))
   /\ UNCHANGED <<nextc, done>>
 
 InBuild == Len(stack) > 0 /\ Top.k = "build" /\ ~unwinding /\ ~done
@@ -137,10 +141,10 @@ ContainerStep(name, outcome) ==
 Rebuild(expected, pack) ==
   /\ InBuild /\ Top.ctx /\ Left > 0
   /\ script' = Append(script, Step("rebuild", [expected |-> expected, pack |-> pack, preproc |-> FALSE]))
-  /\ Issue(<<Cmd("temp", 1), Cmd("pack-build", "img")>>)
+  /\ Issue(<<Cmd("temp", 1)>> \o PackCmds(pack))
   /\ stack' = Append([stack EXCEPT ![Len(stack)].ctx = FALSE],
                      [k |-> "build", ctx |-> TRUE, temps |-> 1, c |-> "-"])
-  /\ unwinding' = Mismatch(expected, pack)
+  /\ unwinding' = (pack = "nopack" \/ Mismatch(expected, pack))
   /\ UNCHANGED <<nextc, done>>
 
 \* the test's own code panics
@@ -180,11 +184,11 @@ Finish ==
 
 Outcomes == {"ok", "fail"}
 Next ==
-  \/ \E e \in {"Success", "Failure"}, p \in Outcomes, pre \in BOOLEAN : StartBuild(e, p, pre)
+  \/ \E e \in {"Success", "Failure"}, p \in Outcomes \cup {"nopack"}, pre \in BOOLEAN : StartBuild(e, p, pre)
   \/ \E n \in {"shell", "sbom"}, o \in Outcomes : ImageStep(n, o)
   \/ \E o \in Outcomes : StartContainer(o)
   \/ \E n \in {"logs", "port", "exec"}, o \in Outcomes : ContainerStep(n, o)
-  \/ \E e \in {"Success", "Failure"}, p \in Outcomes : Rebuild(e, p)
+  \/ \E e \in {"Success", "Failure"}, p \in Outcomes \cup {"nopack"} : Rebuild(e, p)
   \/ PanicStep \/ ReturnStep \/ Unwind \/ Finish
 Spec == Init /\ [][Next]_vars
 
